@@ -306,4 +306,28 @@ example : AdmissibleRun {} [.reference "refs/heads/main" 8, .annotation [1] true
 example : step (run {} [.reference "refs/heads/main" 8]) (.annotation [1, 5] true "x") =
     (run {} [.reference "refs/heads/main" 8], .error .notFound) := by decide
 
+/-! ## append-only over whole histories, with no side condition (round 2) -/
+
+/-- ANY finite sequence of recording operations (admissible or not: annotations naming nothing,
+legacy and numbered operations mixed, failing operations, the skip-all operation) from ANY store:
+no stored commit ever changes and the old tip stays an ancestor of the new one.  Unlike
+`C03_run_inv` this needs no well-formedness or admissibility hypothesis. -/
+theorem C03_run_extends (ops : List Op) : ∀ s : Store, Extends s (run s ops) := by
+  induction ops with
+  | nil => intro s; exact Extends.refl s
+  | cons op ops ih => intro s; simp only [run]; exact (C03_step_extends s op).trans (ih _)
+
+theorem run_append (a b : List Op) : ∀ s : Store, run s (a ++ b) = run (run s a) b := by
+  induction a with
+  | nil => intro s; rfl
+  | cons op a ih => intro s; simp only [List.cons_append, run]; exact ih _
+
+/-- Hence every intermediate state of a history is extended by every later one: what any reader
+saw after `k` operations is still there, unchanged and reachable from the tip, at the end. -/
+theorem C03_run_prefix_extends (ops : List Op) (s : Store) (k : Nat) :
+    Extends (run s (ops.take k)) (run s ops) := by
+  have h := run_append (ops.take k) (ops.drop k) s
+  rw [List.take_append_drop] at h
+  rw [h]; exact C03_run_extends _ _
+
 end Gittuf.RSL
